@@ -323,8 +323,11 @@ func runC04(c *Ctx, r *Report) {
 					dom = true
 				}
 			}
+			if !dom { // or afterwards, on every way out
+				dom = mustPassBeforeExit(ta, func(x ssa.Instruction) bool { return isCallTo(x, trigger) }) == nil
+			}
 			r.Check(dom, "C04.R1", ssaFuncName(fn), "an error turned into a value (catch) triggers no-cache", c.Pos(ta.Pos()),
-				"the text of an Error object is taken to build an ordinary value and TriggerNoCache does not precede it: the caller is memoized with the caught error (a deadline error of one input is then served for the rest of the session), although error results are never cached")
+				"the text of an Error object is taken to build an ordinary value and TriggerNoCache neither precedes it nor follows on every path to a return: the caller is memoized with the caught error (a deadline error of one input is then served for the rest of the session), although error results are never cached")
 		})
 		if n == 0 {
 			r.Undecided("C04.R1: no conversion of an Error into a value found in evalBuiltin (catch expected)")
